@@ -640,6 +640,11 @@ where
       let comps := splitPC chars
       if cfg.globstar ∧ comps.any (fun cs => compPat cs == [cStar, cStar]) then .outside
       else if emptyAfterPattern cfg false false comps then .outside
+      -- bash classifies `@(`, `+(`, `!(` as pattern characters even without extglob (visible with
+      -- nocaseglob and in its `//` handling), and reads a pattern-list with quoted parentheses in
+      -- its own way: both kept out
+      else if !cfg.extglob ∧ hasExtGroup (compPat chars) then .outside
+      else if cfg.extglob ∧ hasExtGroup (compPat chars) ∧ chars.any (fun x => x.q && (x.c == cLP || x.c == cRP || x.c == cBar)) then .outside
       else if cfg.noglob ∨ !comps.any (compIsPattern cfg) then .ok [pcText chars]
       else
         let found := sortStrs (specLoop root cfg pwd true comps [[]])
